@@ -75,7 +75,7 @@ def item_grid(s, nmax, pretties=(False, True), kmax=3, full=True, inters=(False,
                                 el.find('itemID').text = newid
                         stories.append(st)
                     ro_txt = B.ro_doc('RO', 1, stories, ed_start='2020-01-01T12:30:00', pretty=pretty)
-                    for kind, kw in gen.item_grid_messages(names[pos], I, kmax=kmax, full=full,
+                    for kind, kw in gen.item_grid_messages(names[pos], I, other_story=names[(pos + 1) % 3], kmax=kmax, full=full,
                                                            unk=_unknown_for(item_names) if item_names else 'zz-unknown',
                                                            elsewhere='only-elsewhere'):
                         idx += 1
